@@ -216,7 +216,7 @@ func poolBalanceProbe15(dir string, progs [][]parser.Statement) string {
 func runC15(seed int64, tier string, out string) {
 	r := rand.New(rand.NewSource(seed))
 	meta := newMeta("C15", seed)
-	meta.Rule = "procedures generated from the grammar of Csvq.Model.Proc (VAR/:=/DISPOSE/PRINT, IF/ELSEIF/ELSE, CASE, WHILE, WHILE..IN cursor, BREAK/CONTINUE/RETURN/EXIT, function declarations with defaults and calls incl. the recursive templates fact/fib/ack/sumto/iseven-isodd, cursors, temporary tables; nesting depth <= 6; names re-declared in inner blocks; assignments to outer variables; a few deliberate mistakes: undeclared names, redeclarations, wrong argument counts, division by zero). " +
+	meta.Rule = "procedures generated from the grammar of Csvq.Model.Proc (VAR/:=/DISPOSE/PRINT, IF/ELSEIF/ELSE, CASE, WHILE, WHILE..IN cursor, BREAK/CONTINUE/RETURN/EXIT, function declarations with defaults and calls incl. the recursive templates fact/fib/ack/sumto/iseven-isodd and firstover (a cursor loop inside a function left by RETURN), cursors, temporary tables; nesting depth <= 6; names re-declared in inner blocks; assignments to outer variables; a few deliberate mistakes: undeclared names, redeclarations, wrong argument counts, division by zero). " +
 		"Each program is rendered as SQL and as a Coq term; the SQL is parsed by parser.Parse and the parser's AST is translated back to the same Coq term (must be identical). lib cases: Processor.Execute with captured stdout - PRINT lines as typed values, final flow and error class compared with Model.Proc.run_heap; bin cases: the same program through build/csvq -q -s - stdout and exit code; ctx cases: parser accepts the placement of BREAK/CONTINUE/RETURN/EXIT iff Model.Proc.wf_stmt; rows cases: SELECT f(c1) FROM big WHERE g(c1) over >= 400 rows with cpu 4 vs one model invocation per row. " +
 		"A case is non-trivial when the program has at least one nested block and prints at least one line; distinct = distinct SQL texts among those."
 	header := "From Coq Require Import ZArith NArith List Floats.\nRequire Import Csvq.Model.Base Csvq.Model.Value Csvq.Model.Compare Csvq.Model.Arith Csvq.Model.Proc Csvq.Harness.H15.\nOpen Scope list_scope.\n"
